@@ -641,7 +641,7 @@ inline size_t comm::pack_lambda(std::vector<std::byte> &packed, Lambda l,
   const std::tuple<PackArgs...> tuple_args(
       std::forward<const PackArgs>(args)...);
 
-  auto dispatch_lambda = [](comm *c, cereal::YGMInputArchive *bia, Lambda l) {
+  auto dispatch_lambda = [](comm *c, cereal::YGMInputArchive *bia) {
     Lambda *pl = nullptr;
     size_t  l_storage[sizeof(Lambda) / sizeof(size_t) +
                      (sizeof(Lambda) % sizeof(size_t) > 0)];
@@ -671,8 +671,7 @@ inline void comm::pack_lambda_broadcast(Lambda l, const PackArgs &...args) {
       std::forward<const PackArgs>(args)...);
 
   auto forward_remote_and_dispatch_lambda = [](comm                    *c,
-                                               cereal::YGMInputArchive *bia,
-                                               Lambda                   l) {
+                                               cereal::YGMInputArchive *bia) {
     Lambda *pl = nullptr;
     size_t  l_storage[sizeof(Lambda) / sizeof(size_t) +
                      (sizeof(Lambda) % sizeof(size_t) > 0)];
@@ -687,7 +686,7 @@ inline void comm::pack_lambda_broadcast(Lambda l, const PackArgs &...args) {
     }
 
     auto forward_local_and_dispatch_lambda =
-        [](comm *c, cereal::YGMInputArchive *bia, Lambda l) {
+        [](comm *c, cereal::YGMInputArchive *bia) {
           Lambda *pl = nullptr;
           size_t  l_storage[sizeof(Lambda) / sizeof(size_t) +
                            (sizeof(Lambda) % sizeof(size_t) > 0)];
@@ -701,8 +700,7 @@ inline void comm::pack_lambda_broadcast(Lambda l, const PackArgs &...args) {
             (*bia)(ta);
           }
 
-          auto local_dispatch_lambda = [](comm *c, cereal::YGMInputArchive *bia,
-                                          Lambda l) {
+          auto local_dispatch_lambda = [](comm *c, cereal::YGMInputArchive *bia) {
             Lambda *pl = nullptr;
             size_t  l_storage[sizeof(Lambda) / sizeof(size_t) +
                              (sizeof(Lambda) % sizeof(size_t) > 0)];
@@ -797,10 +795,11 @@ inline size_t comm::pack_lambda_generic(std::vector<std::byte> &packed,
       std::forward<const PackArgs>(args)...);
 
   auto remote_dispatch_lambda = [](comm *c, cereal::YGMInputArchive *bia) {
+    // The remote logic reads the functor state from the archive itself; do
+    // not pass it a copy made through a null pointer
     RemoteLogicLambda *rll = nullptr;
-    Lambda            *pl  = nullptr;
 
-    (*rll)(c, bia, *pl);
+    (*rll)(c, bia);
   };
 
   uint16_t lid = m_lambda_map.register_lambda(remote_dispatch_lambda);
